@@ -155,6 +155,22 @@ class CFG:
     def in_loop(self, b):
         return self.path_exists(b, b)
 
+    def headers(self):
+        """blocks that are targets of a back edge"""
+        hs = set()
+        for h in self.reach:
+            for p in self.pred[h]:
+                if p in self.reach and self.dominates(h, p):
+                    hs.add(h)
+        return hs
+
+    def inner_header(self, b):
+        """header of the innermost loop containing block b"""
+        cands = [h for h in self.headers() if self.dominates(h, b) and (h == b or self.path_exists(b, h))]
+        if not cands:
+            return None
+        return max(cands, key=lambda h: len(self.dom()[h]))
+
     def loop_header(self, b):
         """header of the outermost loop containing block b (None when b is not in a loop)"""
         if not self.in_loop(b):
